@@ -1,6 +1,7 @@
 package main
 
 import (
+	"strings"
 	"fmt"
 	"go/constant"
 	"go/token"
@@ -288,4 +289,203 @@ func (c *Ctx) checkM3BucketIdentity(rule string) {
 		}
 		c.check(ok, rule, k2, m.Pos(), fmt.Sprintf("handle = %s[first i with %s >= upper]", lk.list, lk.bound), why)
 	}
+}
+
+// checkPublishedNotRecycled: a tag slice that has been published - stored as the reporter's common
+// tags, handed to the tag cache, or stored in a pre-built metric template - stays owned by that
+// holder. Returning the same slice to a pool (directly, or through a release helper that is handed a
+// struct containing it) lets a later borrower overwrite the backing array of the published tags: every
+// later batch then carries some metric's tags instead of the configured common tags.
+func (c *Ctx) checkPublishedNotRecycled(rule string) {
+	const pk = "m3"
+	isTagSlice := func(t types.Type) bool {
+		sl, ok := t.Underlying().(*types.Slice)
+		if !ok {
+			return false
+		}
+		n, isN := sl.Elem().(*types.Named)
+		return isN && n.Obj().Name() == "MetricTag"
+	}
+	isPut := func(call ssa.CallInstruction) bool {
+		com := call.Common()
+		name := ""
+		if com.IsInvoke() {
+			name = com.Method.Name()
+		} else if g := com.StaticCallee(); g != nil {
+			name = g.Name()
+		}
+		return name == "Put"
+	}
+	// recycled access paths of a function's parameters: "i" (the parameter itself) or "i.Field"
+	type summary map[string]bool
+	memo := map[*ssa.Function]summary{}
+	var summarize func(g *ssa.Function, depth int) summary
+	pathOf := func(g *ssa.Function, v ssa.Value) string {
+		// v is param, or a field load of param (struct passed by value is spilled into a cell)
+		v = stripConv(v)
+		if sl, ok := v.(*ssa.Slice); ok {
+			v = stripConv(sl.X)
+		}
+		v = canon(v)
+		if pi := paramIndex(g, v); pi >= 0 {
+			return fmt.Sprintf("%d", pi)
+		}
+		if f, base := loadedField(v); f != nil {
+			if pi := paramIndex(g, canon(rootOf(base))); pi >= 0 {
+				return fmt.Sprintf("%d.%s", pi, f.Name())
+			}
+		}
+		if fv, ok := v.(*ssa.Field); ok {
+			if pi := paramIndex(g, canon(fv.X)); pi >= 0 {
+				return fmt.Sprintf("%d.%s", pi, structFieldOf(fv.X.Type(), fv.Field).Name())
+			}
+		}
+		return ""
+	}
+	summarize = func(g *ssa.Function, depth int) summary {
+		if s, ok := memo[g]; ok {
+			return s
+		}
+		s := summary{}
+		memo[g] = s
+		if g == nil || g.Blocks == nil || depth == 0 {
+			return s
+		}
+		instrsOf(g, func(in ssa.Instruction) {
+			ci, ok := in.(ssa.CallInstruction)
+			if !ok {
+				return
+			}
+			com := ci.Common()
+			if isPut(ci) {
+				for _, a := range com.Args {
+					if p := pathOf(g, a); p != "" {
+						s[p] = true
+					}
+				}
+				return
+			}
+			if h := com.StaticCallee(); h != nil && c.inModule(h) {
+				hs := summarize(h, depth-1)
+				for hp := range hs {
+					// hp = "j" or "j.F": map through this call's argument j
+					var j int
+					fld := ""
+					if k := strings.Index(hp, "."); k >= 0 {
+						fmt.Sscanf(hp[:k], "%d", &j)
+						fld = hp[k+1:]
+					} else {
+						fmt.Sscanf(hp, "%d", &j)
+					}
+					if j >= len(com.Args) {
+						continue
+					}
+					if fld == "" {
+						if p := pathOf(g, com.Args[j]); p != "" {
+							s[p] = true
+						}
+					} else if pi := paramIndex(g, canon(stripConv(com.Args[j]))); pi >= 0 {
+						s[fmt.Sprintf("%d.%s", pi, fld)] = true
+					}
+				}
+			}
+		})
+		return s
+	}
+	n := 0
+	okAll := true
+	for _, fn := range c.funcsOfPkg(pk) {
+		// published values of this function
+		published := map[ssa.Value]string{}
+		instrsOf(fn, func(in ssa.Instruction) {
+			switch x := in.(type) {
+			case *ssa.Store:
+				if f, base := addrField(x.Addr); f != nil && isTagSlice(f.Type()) {
+					if n2, ok := deref(base.Type()).(*types.Named); ok && (n2.Obj().Name() == "reporter" || n2.Obj().Name() == "Metric") {
+						published[canon(stripConv(x.Val))] = n2.Obj().Name() + "." + f.Name()
+					}
+				}
+			case *ssa.Call:
+				if g := staticCallee(x); g != nil && g.Signature.Recv() != nil {
+					if n2, ok := deref(g.Signature.Recv().Type()).(*types.Named); ok && n2.Obj().Name() == "TagCache" && g.Name() == "Set" {
+						for _, a := range x.Call.Args {
+							if isTagSlice(a.Type()) {
+								published[canon(stripConv(a))] = "the tag cache"
+							}
+						}
+					}
+				}
+			}
+		})
+		if len(published) == 0 {
+			continue
+		}
+		n++
+		// recycled values of this function: arguments of Put, or of helpers that recycle (a field of) their parameter
+		instrsOf(fn, func(in ssa.Instruction) {
+			ci, ok := in.(ssa.CallInstruction)
+			if !ok {
+				return
+			}
+			com := ci.Common()
+			check := func(v ssa.Value) {
+				v = stripConv(v)
+				if sl, isSl := v.(*ssa.Slice); isSl {
+					v = stripConv(sl.X)
+				}
+				if where, isPub := published[canon(v)]; isPub {
+					okAll = false
+					c.bad(rule, c.fnKey(fn), in.Pos(), "a tag slice that is published as "+where+" is also returned to a pool: the next borrower writes its own tags into the backing array, and everything that still refers to the published slice (every later batch's common tags, every metric sharing the cached tags) carries those instead", c.describe(in))
+				}
+			}
+			if isPut(ci) {
+				for _, a := range com.Args {
+					check(a)
+				}
+				return
+			}
+			h := com.StaticCallee()
+			if h == nil || !c.inModule(h) {
+				return
+			}
+			for hp := range summarize(h, 3) {
+				var j int
+				fld := ""
+				if k := strings.Index(hp, "."); k >= 0 {
+					fmt.Sscanf(hp[:k], "%d", &j)
+					fld = hp[k+1:]
+				} else {
+					fmt.Sscanf(hp, "%d", &j)
+				}
+				if j >= len(com.Args) {
+					continue
+				}
+				a := com.Args[j]
+				if fld == "" {
+					check(a)
+					continue
+				}
+				// the struct argument: what was stored into its field fld
+				root := stripConv(a)
+				if ld, isLd := root.(*ssa.UnOp); isLd && ld.Op == token.MUL {
+					root = ld.X
+				}
+				if al, isAl := root.(*ssa.Alloc); isAl && al.Referrers() != nil {
+					for _, r := range *al.Referrers() {
+						if fa, isFA := r.(*ssa.FieldAddr); isFA && structFieldOf(fa.X.Type(), fa.Field).Name() == fld && fa.Referrers() != nil {
+							for _, u := range *fa.Referrers() {
+								if st, isSt := u.(*ssa.Store); isSt && st.Addr == ssa.Value(fa) {
+									check(st.Val)
+								}
+							}
+						}
+					}
+				}
+			}
+		})
+	}
+	if okAll {
+		c.ok(rule, "m3:published-tag-slices", token.NoPos, fmt.Sprintf("no published tag slice is returned to a pool (%d publishing functions)", n))
+	}
+	c.floor(rule, n, 1)
 }
